@@ -7,6 +7,8 @@ import PdbVerif.Model.TableJoin
 import PdbVerif.Model.TableWorldText
 import PdbVerif.Model.MicroSql
 import PdbVerif.Gen.Sql
+import PdbVerif.Driver.ExtMany
+import PdbVerif.Driver.ExtGet
 
 namespace Driver.ModelB
 open Lean Driver Driver.B Tbl
@@ -161,6 +163,6 @@ def op (name : String) (j : Json) : Except String (Option Json) := do
     let objs ← (← jArr j "objs").toList.mapM objOfJson
     let ops ← (← jArr j "ops").toList.mapM wopOfJson
     pure (some (.arr (runWorld objs ops).toArray))
-  | _ => sqlOp name j
+  | _ => (do match ← ExtMany.op name j with | some r => pure (some r) | none => (do match ← ExtGet.op name j with | some r => pure (some r) | none => sqlOp name j))
 
 end Driver.ModelB
